@@ -67,6 +67,16 @@ pub struct ItemReq {
     /// the variable the slice computes: appended as the tail expression after every anchor
     #[serde(default)]
     pub slice_result: Option<String>,
+    /// alpha-renaming of locals: the `let` statement whose text matches `match` (capture group 1 = the bound name) binds a
+    /// local that the unit calls `to`; if the source uses another name, every occurrence in the body is renamed
+    #[serde(default)]
+    pub renames: Vec<RenameReq>,
+}
+
+#[derive(Deserialize, Default, Clone)]
+pub struct RenameReq {
+    pub to: String,
+    pub r#match: String,
 }
 
 #[derive(Deserialize, Default, Clone)]
@@ -628,6 +638,74 @@ fn extract_fn(file: &File, req: &ItemReq, resp: &mut ItemResp) -> std::result::R
                 pre_log.push(RewriteLog { rule: "R-mutself".into(), line: found.line_start, before: "mut self".into(), after: "self + `let mut __vx_self = self;` and self -> __vx_self in the body".into() });
             }
         }
+    }
+
+    // 0b. alpha-renaming of locals the unit refers to by name (semantics-preserving: a consistent renaming of one binding
+    //     and all its uses; refused when the new name is already in use in the body)
+    for rn in &req.renames {
+        let re = Regex::new(&rn.r#match).map_err(|e| format!("rename {}: bad regex: {}", rn.to, e))?;
+        struct Find<'r> { re: &'r Regex, names: Vec<String> }
+        impl<'r> VisitMut for Find<'r> {
+            fn visit_block_mut(&mut self, b: &mut Block) {
+                for st in &b.stmts {
+                    if let Stmt::Local(_) = st {
+                        if let Some(c) = self.re.captures(&stmt_text(st)) {
+                            if let Some(m) = c.get(1) { self.names.push(m.as_str().to_string()); }
+                        }
+                    }
+                }
+                visit_mut::visit_block_mut(self, b);
+            }
+        }
+        let mut f = Find { re: &re, names: vec![] };
+        f.visit_block_mut(&mut block);
+        f.names.dedup();
+        if f.names.len() != 1 {
+            return Err(format!("lost anchor: rename `{}`: /{}/ matches {} let statements", rn.to, rn.r#match, f.names.len()));
+        }
+        let old = f.names[0].clone();
+        if old == rn.to { continue; }
+        struct Uses { name: String, n: usize }
+        impl VisitMut for Uses {
+            fn visit_ident_mut(&mut self, i: &mut proc_macro2::Ident) { if *i == self.name.as_str() { self.n += 1; } }
+            fn visit_macro_mut(&mut self, m: &mut Macro) {
+                fn cnt(ts: proc_macro2::TokenStream, name: &str) -> usize {
+                    ts.into_iter().map(|tt| match tt {
+                        proc_macro2::TokenTree::Ident(i) => (i == name) as usize,
+                        proc_macro2::TokenTree::Group(g) => cnt(g.stream(), name),
+                        _ => 0,
+                    }).sum()
+                }
+                self.n += cnt(m.tokens.clone(), &self.name);
+            }
+        }
+        let mut u = Uses { name: rn.to.clone(), n: 0 };
+        u.visit_block_mut(&mut block);
+        if u.n > 0 {
+            return Err(format!("lost anchor: rename `{}` <- `{}`: the name `{}` is already used in the body", rn.to, old, rn.to));
+        }
+        struct RenL { from: String, to: String }
+        impl VisitMut for RenL {
+            fn visit_ident_mut(&mut self, i: &mut proc_macro2::Ident) {
+                if *i == self.from.as_str() { *i = proc_macro2::Ident::new(&self.to, i.span()); }
+            }
+            fn visit_macro_mut(&mut self, m: &mut Macro) {
+                fn ren(ts: proc_macro2::TokenStream, from: &str, to: &str) -> proc_macro2::TokenStream {
+                    ts.into_iter().map(|tt| match tt {
+                        proc_macro2::TokenTree::Ident(i) if i == from => proc_macro2::TokenTree::Ident(proc_macro2::Ident::new(to, i.span())),
+                        proc_macro2::TokenTree::Group(g) => {
+                            let mut ng = proc_macro2::Group::new(g.delimiter(), ren(g.stream(), from, to));
+                            ng.set_span(g.span());
+                            proc_macro2::TokenTree::Group(ng)
+                        }
+                        other => other,
+                    }).collect()
+                }
+                m.tokens = ren(m.tokens.clone(), &self.from, &self.to);
+            }
+        }
+        RenL { from: old.clone(), to: rn.to.clone() }.visit_block_mut(&mut block);
+        pre_log.push(RewriteLog { rule: "R-alpha".into(), line: found.line_start, before: format!("local `{}`", old), after: format!("renamed to `{}` (the unit's name for the local bound by /{}/)", rn.to, rn.r#match) });
     }
 
     // 1. rewrite rules
